@@ -297,6 +297,13 @@ def main():
         items.append((5, 8, 5, 1, 'nu', 2, 'const', None))
         for order in (2, 3, 4, 5, 6):
             items.append((order, 8, 4, 3, 'cu', 2, 'radial', None, None, tuple(o for o in (2, 3, 4, 5, 6) if o != order)))
+    if not quick:
+        # every order on z grids from the smallest admissible to 10 points, theta spaces of degree 1-5, every layout variant
+        for order in (2, 3, 4, 5, 6):
+            for nz_, nq_, qd_, path_ in [(order + 2, 5, 2, 'nu'), (9, 4, 3, 'cu'), (order + 4, 7, 4, 'nu'), (8, 5, 5, 'nu'), (10, 6, 1, 'nu')]:
+                for lay in range(6):
+                    items.append((order, nz_, nq_, qd_, path_, lay, 'radial', None))
+            items.append((order, 9, 5, 3, 'nu', 1, 'radial', None, Fr(-17, 2) * order))
     items.append((4, 6, 4, 3, 'cu', 0, 'const', CANARIES[0]))
     items.append((4, 6, 4, 3, 'cu', 0, 'const', CANARIES[1]))
     caught = {}
